@@ -135,7 +135,10 @@ def r07_1(ctx, g):
     if len(call) == 1 and len(call[0].args) == 2 and isinstance(call[0].args[0], ast.Starred) and isinstance(call[0].args[0].value, ast.Name):
         ev_ = call[0].args[0].value.id
         sl = [st for st in walk_own(rg.node) if isinstance(st, ast.Assign) and norm(st.targets[0]) == ev_ and isinstance(st.value, ast.Subscript) and isinstance(st.value.slice, ast.Slice)]
-        tags_v = norm(call[0].args[1])
+        a1 = call[0].args[1]
+        if isinstance(a1, ast.BoolOp) and isinstance(a1.op, ast.Or) and isinstance(a1.values[0], ast.Name):
+            a1 = a1.values[0]  # `tags or [0]`: the placeholder for a link without tags
+        tags_v = norm(a1)
         tg = [st for st in walk_own(rg.node) if isinstance(st, ast.Assign) and norm(st.targets[0]) == tags_v and isinstance(st.value, ast.Subscript) and isinstance(st.value.slice, ast.Slice)]
         if len(sl) == 1 and tg:
             s0 = sl[0].value
@@ -241,6 +244,14 @@ def r07_3(ctx, g):
         key = [k.value for k in c.keywords if k.arg == "key"]
         rev = [k for k in c.keywords if k.arg == "reverse"]
         numeric = bool(key) and (norm(key[0]) == "int" or (isinstance(key[0], ast.Lambda) and norm(key[0].body).startswith("int(")))
+        if key and not numeric and isinstance(key[0], (ast.Name, ast.Attribute)):
+            # a named key function (nested def, method, module function) with a single `return int(...)`
+            kf = repo.resolve_callable(f, key[0])
+            if kf is not None:
+                kr = [r for r in walk_own(kf.node) if isinstance(r, ast.Return) and r.value is not None]
+                from ..core import resolve_expr
+
+                numeric = len(kr) == 1 and resolve_expr(kf.node, kr[0].value).startswith("int(")
         ctx.check(numeric and not rev, "R07.3", f.where(c), "the sort key is numeric (int): a tag value read from a file is a string and '10' < '9' lexicographically", key_of(f, f"sort-key:{norm(c)[:80]}"), call=norm(c)[:100])
     # bucket by BO, inside by NO
     src = norm(f.node)
@@ -274,7 +285,15 @@ def r07_4(ctx, g):
     # the stored tag is (type, value) with value = third piece, key = first piece
     an = g.add_node
     st = [s for s in walk_own(an.node) if isinstance(s, ast.Assign) and isinstance(s.targets[0], ast.Subscript) and ".tags" in norm(s.targets[0].value)]
-    ok = len(st) == 1 and norm(st[0].targets[0].slice) == "tag[0]" and norm(st[0].value) == "(tag[1], tag[2])"
+    from ..core import resolve_expr
+
+    ok = False
+    if len(st) == 1:
+        k_txt = resolve_expr(an.node, st[0].targets[0].slice)
+        v_txt = resolve_expr(an.node, st[0].value)
+        if k_txt.endswith("[0]"):
+            base = k_txt[:-3]
+            ok = v_txt == f"({base}[1], {base}[2])" and (base.isidentifier() or ".split(':'" in base)
     ctx.check(ok, "R07.4", an.where(), "a tag is stored as name -> (type, value) from the three pieces", key_of(an, f"tag-store:{[norm(s) for s in st]}"))
 
 
@@ -356,7 +375,7 @@ def r07_7(ctx, g):
             if any(isinstance(a, ast.Starred) for a in c.args) or any(k.arg is None for k in c.keywords):
                 continue
             params = callee.params
-            bound = isinstance(c.func, ast.Attribute) and callee.cls is not None
+            bound = isinstance(c.func, ast.Attribute) and callee.cls is not None and not any(norm(d) == "staticmethod" for d in callee.node.decorator_list)
             avail = params[1:] if bound else params
             n += 1
             pos = len(c.args)
